@@ -21,6 +21,7 @@ import (
 	"fmt"
 	"math"
 	"math/rand"
+	"os"
 	"path/filepath"
 	"reflect"
 	"runtime/debug"
@@ -800,6 +801,10 @@ func (x *c09Exec) checkpoint() string {
 	corp := c09BuildCorpus(x.an, texts)
 
 	// ---- white-box: corpus counters and postings
+	if os.Getenv("VERIF_C09_NOWHITEBOX") != "" {
+		// sensitivity experiments only: shows what the black-box score checks catch on their own
+		return x.probes(corp, iid, ext, vecs)
+	}
 	st, err := c09ReadStats(x.e.DB, c09Index, c09Field)
 	if err != nil {
 		return "harness: " + err.Error()
@@ -864,7 +869,10 @@ func (x *c09Exec) checkpoint() string {
 		}
 	}
 
-	// ---- probes
+	return x.probes(corp, iid, ext, vecs)
+}
+
+func (x *c09Exec) probes(corp *c09Corpus, iid map[string]uint32, ext map[uint32]string, vecs map[string][]float32) string {
 	for qi, q := range x.c.Queries {
 		terms := x.an.Analyze(q.Text)
 		if !c09Distinct(terms) {
